@@ -75,6 +75,11 @@ def is_constlike(n):
         isinstance(n.operand, ast.Constant))
 
 
+def _named_constant(n):
+    last = n.attr if isinstance(n, ast.Attribute) else (n.id if isinstance(n, ast.Name) else None)
+    return bool(last) and last.isupper() and len(last) > 1 and dotted(n) is not None
+
+
 def is_simple(e):
     """side-effect free, cheap to duplicate"""
     if isinstance(e, (ast.Name, ast.Constant)):
@@ -230,6 +235,10 @@ class ExprNorm(ast.NodeTransformer):
                 return _loc(ast.Constant(value=same if op is ast.Is else not same), node)
             if op in FLIP and is_constlike(left) and not is_constlike(right):
                 return _loc(ast.Compare(left=right, ops=[FLIP[op]()], comparators=[left]), node)
+            # a named constant (errno.EAGAIN, signal.SIGKILL, DEAD_OR_ZOMBIE) goes to the right too
+            if op in (ast.Eq, ast.NotEq) and _named_constant(left) and not _named_constant(right) \
+                    and not is_constlike(right):
+                return _loc(ast.Compare(left=right, ops=[op()], comparators=[left]), node)
         return node
 
     def visit_UnaryOp(self, node):
@@ -874,8 +883,33 @@ class StmtNorm(object):
                     count_pairs(h.body)
         count_pairs(fnode.body)
 
+        # x = E immediately followed by the one statement that reads x (once): per name
+        adj = {}
+
+        def count_adj(stmts):
+            for a, b in zip(stmts, stmts[1:]):
+                if isinstance(a, ast.Assign) and len(a.targets) == 1 and \
+                        isinstance(a.targets[0], ast.Name):
+                    x = a.targets[0].id
+                    if sum(1 for n in ast.walk(b) if isinstance(n, ast.Name) and n.id == x and
+                           isinstance(n.ctx, ast.Load)) == 1 and not isinstance(
+                               b, (ast.If, ast.For, ast.While, ast.With, ast.Try, ast.FunctionDef)):
+                        adj[x] = adj.get(x, 0) + 1
+            for st in stmts:
+                if isinstance(st, (ast.FunctionDef, ast.AsyncFunctionDef, ast.ClassDef)):
+                    continue
+                for field in ('body', 'orelse', 'finalbody'):
+                    v = getattr(st, field, None)
+                    if isinstance(v, list) and v and isinstance(v[0], ast.stmt):
+                        count_adj(v)
+                for h in getattr(st, 'handlers', []) or []:
+                    count_adj(h.body)
+        count_adj(fnode.body)
+
         def once(name):
-            return loads.get(name, 0) == 1 and stores.get(name, 0) == 1
+            # every definition of the name is used exactly once, by the statement after it
+            return loads.get(name, 0) == stores.get(name, 0) == adj.get(name, 0) and \
+                loads.get(name, 0) >= 1
 
         def is_copy(st):
             return isinstance(st, ast.Assign) and len(st.targets) == 1 and \
@@ -1240,6 +1274,14 @@ class StmtNorm(object):
                 s.test = negate(s.test)
                 s.body, s.orelse = s.orelse, s.body
             return s
+        if isinstance(s, ast.While) and not s.orelse and isinstance(s.test, ast.Constant) and \
+                s.test.value is True and s.body and isinstance(s.body[0], ast.If) and \
+                not s.body[0].orelse and len(s.body[0].body) == 1 and \
+                isinstance(s.body[0].body[0], ast.Break) and len(s.body) > 1:
+            # while True: if not c: break; BODY   is   while c: BODY
+            self.bump('while-true-break-as-test')
+            s.test = negate(s.body[0].test)
+            s.body = s.body[1:]
         if isinstance(s, (ast.For, ast.AsyncFor)):
             self.unpack_in_target(s)
         if isinstance(s, (ast.For, ast.AsyncFor, ast.While)):
@@ -1291,6 +1333,16 @@ class StmtNorm(object):
                 func=ast.Attribute(value=ast.Name(id=s.targets[0].id, ctx=ast.Load()),
                                    attr='append', ctx=ast.Load()),
                 args=[s.value.right.elts[0]], keywords=[])), s)
+        if isinstance(s, ast.Assign) and len(s.targets) == 1 and isinstance(s.targets[0], ast.Name) \
+                and isinstance(s.value, ast.BinOp) and isinstance(s.value.op, (ast.Add, ast.Sub)) \
+                and isinstance(s.value.left, ast.Name) and s.value.left.id == s.targets[0].id and \
+                (isinstance(s.value.right, ast.Constant) and
+                 isinstance(s.value.right.value, (int, float)) or
+                 isinstance(s.value.right, (ast.Name, ast.Attribute))):
+            # x = x + k is x += k
+            self.bump('rebind-as-augassign')
+            return _loc(ast.AugAssign(target=ast.Name(id=s.targets[0].id, ctx=ast.Store()),
+                                      op=s.value.op, value=s.value.right), s)
         if isinstance(s, ast.AugAssign) and isinstance(s.op, ast.Add) and \
                 isinstance(s.target, ast.Name) and isinstance(s.value, ast.List) and \
                 len(s.value.elts) == 1 and not isinstance(s.value.elts[0], ast.Starred):
